@@ -37,6 +37,9 @@ struct Out {
     optional: bool,
     old: Option<(usize, u32)>, // size, mode
     old_is_dir: bool,
+    /// the output path is a character device (a private copy of the null device, made with mknod in the scratch
+    /// directory): the code writes INTO it instead of renaming a file over it
+    old_special: bool,
     /// shape of the previous output: plain | hardlink (a second name `links/<i>` for the same inode) |
     /// symlink (the output path is a symbolic link to `links/<i>`) | dir700 (its directory has mode 0700)
     shape: String,
@@ -55,6 +58,7 @@ fn parse_outs(x: &Sx) -> Vec<Out> {
         .map(|o| {
             let old = o.arg(5);
             let old_is_dir = old.is_sym("dir");
+            let old_special = old.is_sym("special");
             Out {
                 dir: o.arg(0).str(),
                 name: o.arg(1).str(),
@@ -63,6 +67,7 @@ fn parse_outs(x: &Sx) -> Vec<Out> {
                 optional: o.arg(4).as_bool(),
                 old: if old.list().len() >= 2 { Some((old.arg(0).u64() as usize, old.arg(1).u64() as u32)) } else { None },
                 old_is_dir,
+                old_special,
                 shape: if old.list().len() >= 3 { old.arg(2).str() } else { "plain".to_string() },
                 fault: o.arg(6).str(),
             }
@@ -219,6 +224,16 @@ fn build(seed: u64, outs: &[Out], rt: &tokio::runtime::Runtime) -> Result<Built,
         if o.old_is_dir {
             std::fs::create_dir_all(&p).unwrap();
             olds.push(None);
+        } else if o.old_special {
+            // never the real /dev/null: a node of our own with the null device's numbers
+            let cp = std::ffi::CString::new(p.as_os_str().as_bytes()).unwrap();
+            let rc = unsafe { libc::mknod(cp.as_ptr(), libc::S_IFCHR | 0o666, libc::makedev(1, 3)) };
+            if rc != 0 {
+                return Err(format!("mknod: {}", std::io::Error::last_os_error()));
+            }
+            std::fs::set_permissions(&p, std::fs::Permissions::from_mode(0o666)).unwrap();
+            // what anybody reads there, before, during and after: nothing
+            olds.push(Some(vec![]));
         } else if let Some((sz, mode)) = o.old {
             let c = content(seed, i, false, sz);
             let links = outroot.join("links");
@@ -260,7 +275,8 @@ fn build(seed: u64, outs: &[Out], rt: &tokio::runtime::Runtime) -> Result<Built,
         .iter()
         .map(|o| {
             use std::os::unix::fs::MetadataExt;
-            std::fs::symlink_metadata(&o.path).ok().filter(|m| m.file_type().is_file()).map(|m| m.ino())
+            use std::os::unix::fs::FileTypeExt;
+            std::fs::symlink_metadata(&o.path).ok().filter(|m| m.file_type().is_file() || m.file_type().is_char_device()).map(|m| m.ino())
         })
         .collect();
     Ok(Built { td, outroot, entry, objects, news, olds, old_inos })
@@ -291,6 +307,12 @@ fn final_state(b: &Built, outs: &[Out]) -> (Sx, usize, Sx) {
         }
         let (class, mode) = match std::fs::symlink_metadata(&p) {
             Err(_) => ("absent", 0),
+            Ok(m) if o.old_special => {
+                use std::os::unix::fs::FileTypeExt;
+                // still OUR device node (same inode, still a character device)?
+                let same = m.file_type().is_char_device() && b.old_inos[i] == Some(m.ino()) && m.rdev() == libc::makedev(1, 3);
+                (if same { "special" } else { "other" }, m.permissions().mode() & 0o7777)
+            }
             Ok(m) if m.is_dir() => (if o.old_is_dir { "old" } else { "other" }, 0),
             Ok(m) if m.file_type().is_symlink() => {
                 // still the previous symbolic link: fine only if what it points to is the untouched previous file
@@ -693,6 +715,7 @@ fn raw_sx(ev: &[Raw]) -> Sx {
 /// every access to a FINAL output path that is not a rename from a live temp spelled out.
 fn canonical(ev: &[Raw], outs: &[Out]) -> Sx {
     let is_out = |p: &str| outs.iter().any(|o| o.rel() == p);
+    let is_special = |p: &str| outs.iter().any(|o| o.rel() == p && o.old_special);
     let mut temps: HashMap<String, usize> = HashMap::new(); // live temp path -> number
     let mut n = 0;
     let mut out = vec![];
@@ -709,14 +732,19 @@ fn canonical(ev: &[Raw], outs: &[Out]) -> Sx {
                 }
             }
             Raw::OpenW(p, f) => {
-                if is_out(p) {
+                if is_special(p) && f == "O_WRONLY" {
+                    // the ONE shape for which opening the output for writing is what the code is meant to do
+                    out.push(Sx::L(vec![Sx::sym("open_special"), s(p)]));
+                } else if is_out(p) {
                     out.push(Sx::L(vec![Sx::sym("open_final_for_writing"), s(p), Sx::sym(f)]));
                 } else if !temps.contains_key(p) {
                     out.push(Sx::L(vec![Sx::sym("open_other_for_writing"), s(p), Sx::sym(f)]));
                 }
             }
             Raw::Write(p, _) => {
-                if is_out(p) {
+                if is_special(p) {
+                    // bytes into the device node
+                } else if is_out(p) {
                     let last_same = matches!(out.last(), Some(Sx::L(l)) if l.len() == 2 && l[0].is_sym("write_final") && l[1].bytes() == p.as_bytes());
                     if !last_same {
                         out.push(Sx::L(vec![Sx::sym("write_final"), s(p)]));
